@@ -1,5 +1,6 @@
 \* enumerate candidate counterexamples per named deviation (tiny instance, all states)
-CONSTANTS NK = 2  NV = 1  Cap = 2  MaxH = 2  RecordHist = TRUE  SimDepth = 0
+CONSTANTS NK = 2  Cap = 2  MaxH = 2  Restarts = TRUE  RecordHist = TRUE  SimDepth = 0
+CONSTANT Vals <- V1
 CONSTANT Dev <- DevNone
 INIT Init
 NEXT Next
